@@ -284,6 +284,7 @@ func emitFacts(o *hlib.Out) {
 	sort.Strings(coll)
 	o.Case("gofn", "["+strings.Join(coll, ",")+"]")
 	emitEncoderFacts(o)
+	emitWrapFacts(o, f)
 	o.Stat("fq_definitions", len(all))
 	o.Stat("go_functions", len(interp.DefaultRegistry.EnvFuncFns))
 }
@@ -422,4 +423,79 @@ func emitEncoderFacts(o *hlib.Out) {
 	}
 	o.Case("escpairs", res)
 	o.Stat("exhaustive_small_domain", 1)
+}
+
+// ---------------------------------------------------------------- the CLI's wrap `try (PROG) catch <reporter>`
+
+// skeleton of a query in the grammar fragment of FqModel/TryWrap.lean: A (anything else), P(x) parentheses,
+// T(x) try, T(x,y) try … catch
+func skel(q *gojq.Query) string {
+	if q == nil {
+		return "A"
+	}
+	if len(q.FuncDefs) != 0 || q.Op != gojq.Operator(0) || q.Left != nil || q.Right != nil || q.Func != "" || q.Term == nil || len(q.Term.SuffixList) != 0 {
+		return "A"
+	}
+	switch q.Term.Type {
+	case gojq.TermTypeQuery:
+		return "P(" + skel(q.Term.Query) + ")"
+	case gojq.TermTypeTry:
+		if q.Term.Try.Catch == nil {
+			return "T(" + skel(q.Term.Try.Body) + ")"
+		}
+		return "T(" + skel(q.Term.Try.Body) + "," + skel(q.Term.Try.Catch) + ")"
+	}
+	return "A"
+}
+
+var wrapPrograms = []string{
+	`.`, `.a`, `1`, `"s"`, `error("x")`, `empty`, `[1]`, `{a: 1}`, `.a.b`, `.[0]`, `$in`, `f`, `-1`, `..`, `.[]?`, `error("x")?`,
+	`try error("x")`, `try tonumber`, `try map(tonumber)`, `try (.[] | tonumber)`, `try .a`, `try error`, `try 1`,
+	`try error("x") catch .`, `try error("x") catch "c"`, `try try error("x")`, `try (try error("x"))`, `try try error("x") catch .`,
+	`try error("x") catch try error("y")`, `(try error("x"))`, `[try error("x")]`, `try error("x") | 1`, `try error("x"), 2`, `1, try error("x")`,
+	`try error("x") // 1`, `try error("x") + 1`, `. as $v | try error("x")`, `def f: 1; try error("x")`, `label $l | try error("x")`,
+	`try error("x")?`, `(try error("x"))?`, `try error("x").a`, `try error("x")[0]`, `if . then try error("x") end`, `reduce .[] as $x (0; .)`,
+	`foreach .[] as $x (0; .)`, `first(try error("x"))`, `try first(error("x"))`, `1 + 2`, `.a | .b`, `.a, .b`, `.a // .b`, `.a and .b`, `.a == .b`,
+	`try (1, error("x"), 3)`, `try try try error("x")`, `try (try error("a") catch error("b"))`, `@base64 "\(try error("x"))"`, `"\(try error("x"))"`,
+}
+
+func emitWrapFacts(o *hlib.Out, f *fqInst) {
+	for _, prog := range wrapPrograms {
+		orig, err := gojq.Parse(prog)
+		if err != nil {
+			o.Verdict("BADOP", "wrap: the reference does not parse "+prog)
+			continue
+		}
+		op := "wrap " + skel(orig) + " " + jsonText(prog)
+		rw, err := f.evalString(jqStr(prog) + ` | _eval_query_rewrite({catch_query: _query_func("_c07_reporter")})`)
+		if err != nil {
+			o.Case(op, "rewrite-failed")
+			continue
+		}
+		rq, err := gojq.Parse(rw)
+		if err != nil {
+			o.Case(op, "unparsable;"+rw)
+			continue
+		}
+		// the user's program inside: the try body, parentheses removed
+		inner, catch := "changed", "other"
+		if rq.Term != nil && rq.Term.Type == gojq.TermTypeTry && len(rq.FuncDefs) == 0 && rq.Op == gojq.Operator(0) && len(rq.Term.SuffixList) == 0 {
+			b := rq.Term.Try.Body
+			for b != nil && b.Term != nil && b.Term.Type == gojq.TermTypeQuery && len(b.Term.SuffixList) == 0 && b.Op == gojq.Operator(0) && len(b.FuncDefs) == 0 && b.Func == "" {
+				b = b.Term.Query
+			}
+			o2 := orig
+			for o2 != nil && o2.Term != nil && o2.Term.Type == gojq.TermTypeQuery && len(o2.Term.SuffixList) == 0 && o2.Op == gojq.Operator(0) && len(o2.FuncDefs) == 0 && o2.Func == "" {
+				o2 = o2.Term.Query
+			}
+			if b != nil && b.String() == o2.String() {
+				inner = "same"
+			}
+			if c := rq.Term.Try.Catch; c != nil && c.String() == "_c07_reporter" {
+				catch = "ok"
+			}
+		}
+		o.Case(op, skel(rq)+";inner="+inner+";catch="+catch)
+		o.Class("wrap " + prog)
+	}
 }
